@@ -697,11 +697,42 @@ def rule_delegates(ctx, rep):
                     _ctor_calls(F, E, e, ctors)
                     if len(ctors) != 1:
                         ok, why = False, "expected exactly one constructor call in %s, found %d" % (symx.show(e), len(ctors))
+                    else:
+                        # the constructor receives the caller's input as a whole: the parameter itself or a whole-value view
+                        # of it (`as_bytes()`, `&s[..]`, `len()` for the recorded length) - not a trimmed, sliced, skipped,
+                        # truncated or otherwise transformed one
+                        odd = []
+                        for a in ctors[0][3]:
+                            _foreign_calls(F, a, odd)
+                        if odd:
+                            ok, why = False, "the input is transformed by `%s` before it reaches the constructor: the handle would not hold what the caller passed" % odd[0]
                 if ok:
                     rep.ok("R-DELEGATE", b["key"], cfg=tag)
                 else:
                     rep.bad("R-DELEGATE", b["key"], why, F.loc(b), tag)
     rep.floor("R-DELEGATE", 8, "delegating constructors")
+
+
+WHOLE_VIEWS = ("as_bytes", "as_slice", "as_mut_slice", "as_str", "as_ref", "as_mut", "deref", "deref_mut", "borrow", "into_iter", "iter", "into", "len", "default", "into_boxed_slice", "into_vec", "to_owned")
+
+
+def _foreign_calls(F, e, out):
+    """Calls inside a constructor argument that are not whole-value views of the caller's input."""
+    if not isinstance(e, tuple):
+        return
+    if e and e[0] == "call":
+        name = e[2]
+        full_index = name in ("index", "index_mut") and len(e[3]) == 2 and e[3][1][0] == "agg" and str(e[3][1][2]).endswith("RangeFull")
+        local_plain_ctor = e[1] in F.bodies and name == "new" and F.handle_name((F.body(e[1]).get("impl") or {}).get("self_ty", -1)) is None
+        if not (name in WHOLE_VIEWS or full_index or local_plain_ctor):
+            out.append(symx.show(e)[:80])
+            return
+        for a in e[3]:
+            _foreign_calls(F, a, out)
+        return
+    for x in e:
+        if isinstance(x, tuple):
+            _foreign_calls(F, x, out)
 
 
 def _ctor_calls(F, E, e, out):
